@@ -691,3 +691,43 @@ func init() {
 		WallBudget:  shapeBudget,
 	})
 }
+
+func init() {
+	registerProp(&PropSpec{
+		ID: "C11",
+		Units: func(tier string, seed int64, sh *Shared) []Unit {
+			var units []Unit
+			maxPre := 3
+			scripts := []string{"n", "e", "nn", "ne", "en", "nen", "nnn"}
+			if tier == "thorough" {
+				maxPre = 4
+				scripts = append(scripts, "nee", "enn", "nne", "ene")
+			}
+			for n := 0; n <= maxPre; n++ {
+				for _, s := range scripts {
+					units = append(units, Unit{"VerifC11Keys", []string{itoa2(n), s}})
+				}
+			}
+			kinds := []string{"int", "int8", "int16", "int32", "int64", "uint8", "uint16", "uint32", "uint64", "bool", "string", "time", "duration", "ints", "int32s", "int64s", "strs"}
+			layouts := []string{"explicit:0,1,2", "explicit:0,255,7", "explicit:0,256,7", "explicit:-1,3,4", "explicit:255,254,253", "explicit:32767,1,2", "explicit:5,6,-32768", "explicit:300,301,302",
+				"symbolic-map", "register:012", "register:021", "register:102", "register:120", "register:201", "register:210", "regvarandop", "undefined", "evalfunc"}
+			for li, l := range layouts {
+				// every kind in every position over the layouts (rotating), plus uniform vectors on the first layouts
+				for k := range kinds {
+					a, b, c := kinds[k], kinds[(k+li+1)%len(kinds)], kinds[(k+2*li+5)%len(kinds)]
+					units = append(units, Unit{"VerifC11Layout", []string{l, a + "," + b + "," + c}})
+				}
+			}
+			return units
+		},
+		Reach: []string{"existing", "new", "layout"},
+		Bounds: func(tier string) map[string]interface{} {
+			return map[string]interface{}{"key_allocation": "0..3 (4 thorough) pre-registered names with arbitrary pairwise distinct int16 keys (solver variables), then ≤3 registrations of new/existing names",
+				"layouts": "8 explicit concrete key triples on both sides of the 0..255 fetcher boundary, arbitrary distinct symbolic keys with at least one outside 0..255 (map fetcher), GetOrRegisterKey in all 6 orders, RegVarAndOp and the Eval convenience function under every map iteration order, undefined-variable mode",
+				"bindings": "17 Go kinds (int, int8-64, uint8-64, bool, string, time.Time, Duration, []int, []int32, []int64, []string) with arbitrary contents, every kind in every variable position"}
+		},
+		Rule:        "key units: one per (pre-registered count, script); layout units: one per (layout, kind vector); a state is one symbolic path",
+		Assumptions: []string{"symbolic keys inside 0..255 for all variables at once (slice fetcher with symbolic length) are covered by the concrete boundary triples only"},
+		WallBudget:  shapeBudget,
+	})
+}
